@@ -727,7 +727,8 @@ impl GState {
             Op::Write(f, data) => {
                 if let Some(idx) = self.files.iter().position(|x| x.handle == *f) {
                     let gf = self.files[idx].clone();
-                    if gf.writable && (ok || offset_after.is_some()) {
+                    let past_checks = out.res != "err BadHandle" && out.res != "err ReadOnly" && out.res != "err LockError" && out.res != "panic";
+                    if gf.writable && past_checks {
                         // on failure (disk full) the transferred prefix is what the offset moved by
                         let k = if ok { data.len() } else { offset_after.unwrap_or(gf.pos).saturating_sub(gf.pos) };
                         let st = fat_stamp(&self.clock);
@@ -739,10 +740,10 @@ impl GState {
                                 }
                                 file.data[gf.pos..end].copy_from_slice(&data[..k]);
                             }
-                            if ok {
-                                file.attr |= 0x20;
-                                file.mtime = st;
-                            }
+                            // the modification is recorded as soon as the call gets past its checks,
+                            // also when it then fails part way (disk full)
+                            file.attr |= 0x20;
+                            file.mtime = st;
                         }
                         self.files[idx].pos = gf.pos + k;
                     }
